@@ -291,9 +291,12 @@ def discharge(ob: Obligation, collect_functions=True):
                     if cctx is not None:
                         res["validated"] += 1
                         cf = dict(cctx.facets)
+                        if not interior:
+                            res["tie_paths"] = res.get("tie_paths", 0) + 1  # float run of a tie/boundary model: not comparable
                         for n in proved_names:
                             if n not in cf:
-                                _mm(res, "facet %s proved symbolically but absent in the concrete run (inputs %s)" % (n, vals))
+                                if interior:
+                                    _mm(res, "facet %s proved symbolically but absent in the concrete run (inputs %s)" % (n, vals))
                             elif cf[n] is not True and interior:
                                 # exact-real proof, but the float64 run of the same path model violates the facet (dtype- or
                                 # rounding-dependent behaviour): a candidate like any other, decided by the unhooked replay
@@ -301,7 +304,7 @@ def discharge(ob: Obligation, collect_functions=True):
                                 if len(lst) < 3:
                                     lst.append(dict(facet=n, model=vals, origin="concolic", notes=[x for x in cctx.notes if x.startswith(n)][:1]))
                             elif cf[n] is not True:
-                                _mm(res, "facet %s proved symbolically but false in the float64 run of a boundary (tie) model (inputs %s)" % (n, vals))
+                                pass  # boundary (tie) model: the float run took a neighbouring path (counted in tie_paths)
                         for n, c in cctx.facets:
                             if c is not True and interior and n not in dict(ctx.facets):
                                 lst = cand_per_facet.setdefault(n, [])
@@ -309,7 +312,7 @@ def discharge(ob: Obligation, collect_functions=True):
                                     lst.append(dict(facet=n, model=vals, origin="concolic", notes=[x for x in cctx.notes if x.startswith(n)][:1]))
                         co = dict(cctx.obs)
                         for n, x in ctx.obs:
-                            if n in co and not _close(_sym_value(m, x), co[n]):
+                            if interior and n in co and not _close(_sym_value(m, x), co[n]):
                                 _mm(res, "observable %s: symbolic %r vs concrete %r (inputs %s)" % (n, _sym_value(m, x), co[n], vals))
     except Budget as e:
         res["inconclusive"].append("budget: %s" % e)
